@@ -1,4 +1,5 @@
 //! pbverif - property-based testing / fuzzing harness for Rahix/profirust (see /verif/DESIGN.md).
+pub mod apps;
 pub mod dpdrv;
 pub mod dporacles;
 pub mod engine;
